@@ -63,7 +63,12 @@ class PyCtx:
         self.ppos = {p: j for j, p in enumerate(self.properties)}
         bools = [tuple(bool((r >> j) & 1) for j in range(self.m)) for r in self.rows]
         self.bools = bools
-        self.ctx = concepts.Context(self.objects, self.properties, bools)
+        cells = bools
+        if (self.n * 31 + self.m * 17 + sum(self.rows)) % 3 == 0 and self.n * self.m <= 400:
+            # the cells as assorted truthy / falsy values: a context represents its table by truthiness
+            truthy, falsy = (True, 1, 2, 3.5, 'x', (0,)), (False, 0, None, '', (), 0.0)
+            cells = [tuple((truthy if b else falsy)[(i * 7 + j * 5 + i * j) % 6] for j, b in enumerate(row)) for i, row in enumerate(bools)]
+        self.ctx = concepts.Context(self.objects, self.properties, cells)
 
     @property
     def line(self):
